@@ -52,22 +52,19 @@ def TemplatesOk (env : CharEnv) : Prop :=
 theorem attr_presence (c : Ctx) (e : Elem) (ns name : Str) :
     matchAttributes c e [compileAttr ns name none] = satAttr c e ns name none := by
   simp only [matchAttributes, List.all_cons, List.all_nil, Bool.and_true, compileAttr, satAttr]
-  cases matchAttributeName c e name ns <;> simp
+  simp
 
 /-- The value test the matcher performs for `[ns|name op v flag]` (for `!=` this is the `=` test of
-    the inner `:not`). -/
+    the inner `:not`): SOME attribute designated by `ns|name` has a value that passes it. -/
 theorem attr_value (c : Ctx) (e : Elem) (ns name : Str) (t : AttrTest) (hT : TemplatesOk c.env)
     (hfold : caseInsensitive c name t.flag = true → c.env.fold = lowerCp) :
     matchAttributes c e [compileAttr ns name (some t)] =
-      (match matchAttributeName c e name ns with
-       | none => false
-       | some v => valTest t.op t.value (caseInsensitive c name t.flag) (nvalJoin v)) := by
+      ((matchAttributeValues c e name ns).any fun v =>
+        valTest t.op t.value (caseInsensitive c name t.flag) (nvalJoin v)) := by
   simp only [matchAttributes, List.all_cons, List.all_nil, Bool.and_true, compileAttr]
-  cases matchAttributeName c e name ns with
-  | none => rfl
-  | some v =>
-    simp only
-    by_cases hty : (t.flag == CaseFlag.none && lower name == [116, 121, 112, 101]) = true
+  congr 1
+  funext v
+  · by_cases hty : (t.flag == CaseFlag.none && lower name == [116, 121, 112, 101]) = true
     · -- the `type` attribute without a flag: two patterns
       have hflag : t.flag = CaseFlag.none := by
         have := (Bool.and_eq_true _ _).mp hty |>.1
@@ -118,9 +115,7 @@ theorem attr_pos (c : Ctx) (e : Elem) (ns name : Str) (t : AttrTest) (hT : Templ
     matchAttributes c e [compileAttr ns name (some t)] = satAttr c e ns name (some t) := by
   rw [attr_value c e ns name t hT hfold]
   unfold satAttr
-  cases matchAttributeName c e name ns with
-  | none => simp [hop]
-  | some v => simp [hop]
+  simp [hop]
 
 /-- `[a!=v]`. -/
 theorem attr_neg (c : Ctx) (e : Elem) (ns name : Str) (t : AttrTest) (hT : TemplatesOk c.env)
@@ -129,9 +124,7 @@ theorem attr_neg (c : Ctx) (e : Elem) (ns name : Str) (t : AttrTest) (hT : Templ
     (!matchAttributes c e [compileAttr ns name (some t)]) = satAttr c e ns name (some t) := by
   rw [attr_value c e ns name t hT hfold]
   unfold satAttr
-  cases matchAttributeName c e name ns with
-  | none => simp [hop]
-  | some v => simp [hop]
+  simp [hop]
 
 /-! ### `:empty` -/
 
